@@ -157,3 +157,69 @@ package datamodel
 //@ interface Node.Prototype() (np)
 //@   assigns nothing
 //@   ensures np != nil
+
+// ---- Path / PathSegment (C14) ----
+
+//@ constglobal EmptyPath
+//@ constglobal EmptyPathSegment
+
+//@ pure func itoa(i mathint) string
+//@ pure func segstr(ps PathSegment) string = ps.i < 0 ? ps.s : itoa(ps.i)
+
+//@ func PathSegmentOfString(s) (r)
+//@   assigns nothing
+//@   ensures[C14] r.s == s && r.i == 0 - 1
+//@ func PathSegmentOfInt(i) (r)
+//@   assigns nothing
+//@   ensures[C14] r.i == i && r.s == ""
+//@ func (PathSegment).String() (r)
+//@   assigns nothing
+//@   ensures[C14] r == segstr(ps)
+//@ func (PathSegment).Index() (r, err)
+//@   assigns nothing
+//@   ensures[C14] ps.i >= 0 ==> err == nil && r == ps.i
+//@ func (PathSegment).Equals(o) (r)
+//@   assigns nothing
+//@   ensures[C14] x.i >= 0 && o.i >= 0 ==> r == (x.i == o.i)
+//@   ensures[C14] !(x.i >= 0 && o.i >= 0) ==> r == (segstr(x) == segstr(o))
+
+//@ func NewPath(segments) (r)
+//@   assigns nothing
+//@   ensures[C14] fresh(r.segments) && len(r.segments) == len(segments)
+//@   ensures[C14] forall i mathint :: 0 <= i && i < len(segments) ==> r.segments[i] == segments[i] && segments[i] == old(segments[i])
+//@ func (Path).Len() (r)
+//@   assigns nothing
+//@   ensures[C14] r == len(p.segments)
+//@ func (Path).Segments() (r)
+//@   assigns nothing
+//@   ensures[C14] r == p.segments
+//@ func (Path).AppendSegment(ps) (r)
+//@   assigns nothing
+//@   ensures[C14] fresh(r.segments) && len(r.segments) == len(p.segments) + 1 && r.segments[len(p.segments)] == ps
+//@   ensures[C14] forall i mathint :: 0 <= i && i < len(p.segments) ==> r.segments[i] == p.segments[i] && p.segments[i] == old(p.segments[i])
+//@ func (Path).Join(p2) (r)
+//@   requires len(p.segments) + len(p2.segments) <= 4611686018427387904
+//@   assigns nothing
+//@   ensures[C14] fresh(r.segments) && len(r.segments) == len(p.segments) + len(p2.segments)
+//@   ensures[C14] forall i mathint :: 0 <= i && i < len(p.segments) ==> r.segments[i] == p.segments[i] && p.segments[i] == old(p.segments[i])
+//@   ensures[C14] forall i mathint :: 0 <= i && i < len(p2.segments) ==> r.segments[len(p.segments) + i] == p2.segments[i] && p2.segments[i] == old(p2.segments[i])
+//@ func (Path).Truncate(i) (r)
+//@   requires 0 <= i && i <= cap(p.segments)
+//@   assigns nothing
+//@   ensures[C14] len(r.segments) == i && (forall j mathint :: 0 <= j && j < i ==> r.segments[j] == p.segments[j])
+//@ func (Path).Parent() (r)
+//@   assigns nothing
+//@   ensures[C14] len(p.segments) == 0 ==> len(r.segments) == 0
+//@   ensures[C14] len(p.segments) > 0 ==> len(r.segments) == len(p.segments) - 1 && (forall j mathint :: 0 <= j && j < len(r.segments) ==> r.segments[j] == p.segments[j])
+//@ func (Path).Pop() (r)
+//@   assigns nothing
+//@   ensures[C14] len(p.segments) == 0 ==> len(r.segments) == 0
+//@   ensures[C14] len(p.segments) > 0 ==> len(r.segments) == len(p.segments) - 1 && (forall j mathint :: 0 <= j && j < len(r.segments) ==> r.segments[j] == p.segments[j])
+//@ func (Path).Last() (r)
+//@   assigns nothing
+//@   ensures[C14] len(p.segments) > 0 ==> r == p.segments[len(p.segments)-1]
+//@   ensures[C14] len(p.segments) == 0 ==> r.i == 0 - 1 && r.s == ""
+//@ func (Path).Shift() (s, r)
+//@   assigns nothing
+//@   ensures[C14] len(p.segments) > 0 ==> s == p.segments[0] && len(r.segments) == len(p.segments) - 1 && (forall j mathint :: 0 <= j && j < len(r.segments) ==> r.segments[j] == p.segments[j+1])
+//@   ensures[C14] len(p.segments) == 0 ==> len(r.segments) == 0 && s.i == 0 - 1
